@@ -89,10 +89,17 @@ Theorem C39_serializable_disjoint : forall g0 st0 mods0 js sched,
 Proof. exact serializable_disjoint. Qed.
 Print Assumptions C39_serializable_disjoint.
 
-(* The same class with Check jobs mixed in: in ALL interleavings every variable
-   access is made by the thread that declared the variable (no value flows
-   between evaluations) and the namespace is the one of the serial order in
-   which the evaluations committed. *)
+(* PLANNED with Check jobs mixed in, full statement (not proved, see
+   checks/C39.md):
+     forall g0 st0 mods0 js sched, (forall j, In j js -> disjoint_job j) ->
+       let c := run sched (init g0 st0 mods0 js) in
+       (forall t, t_ops (c_thr c t) = []) ->
+       exists order F, NoDup order /\ obs_of (run (blocks F order) c0) (length js) = obs_of c (length js)
+   (it needs the position of every Check relative to the commits it saw).
+   Proved for that class: in ALL interleavings every variable access is made
+   by the thread that declared the variable (no value flows between
+   evaluations) and the namespace is the one of the serial order in which the
+   evaluations committed. *)
 Theorem C39_serializable_disjoint_partial : forall g0 st0 mods0 js sched,
   (forall j, In j js -> disjoint_job j) ->
   let c := run sched (init g0 st0 mods0 js) in
@@ -120,6 +127,13 @@ Theorem C39_acceptor_complete : forall setup js o,
 Proof. exact serial_outcome_ok_complete. Qed.
 Print Assumptions C39_acceptor_complete.
 
+(* The model of the RW lock: in ALL interleavings ev.mu is never held
+   exclusively and shared at the same time. *)
+Theorem C39_mu_exclusive : forall g0 st0 mods0 js sched,
+  let c := run sched (init g0 st0 mods0 js) in c_w c <> None -> c_r c = [].
+Proof. exact mu_exclusive. Qed.
+Print Assumptions C39_mu_exclusive.
+
 (* ---- non-vacuity ---- *)
 (* the acceptor accepts an outcome of the order job 1, job 0 ... *)
 Example C39_ex_accepts :
@@ -137,4 +151,12 @@ Example C39_ex_race :
 Proof. vm_compute. reflexivity. Qed.
 Example C39_ex_commit_order :
   c_commits (run [1;1;1;1;1;1;1;0;0;0;0;0;0;0] (init [] [] [] [JEval [SDecl 1 1]; JEval [SDecl 1 2]])) = [0; 1].
+Proof. vm_compute. reflexivity. Qed.
+(* a complete interleaving that is not serial (the two evaluations execute
+   their statements alternately): C39_serializable_disjoint applies to it *)
+Example C39_ex_interleaved_complete :
+  let c := run [0;0;0;0;0;0; 1;1;1;1;1;1; 1;0;1;0]
+               (init [] [] [] [JEval [SDecl 1 1; SGet 1]; JEval [SDecl 1 2; SGet 1]]) in
+  (t_ops (c_thr c 0), t_ops (c_thr c 1), obs_of c 2, c_commits c)
+  = ([], [], mkObs [(1, 2)] [mkRes false [1]; mkRes false [2]], [1; 0]).
 Proof. vm_compute. reflexivity. Qed.
